@@ -233,7 +233,7 @@ theorem foldl_insR_perm (lt : α → α → Bool) (l acc : List α) :
     simp only [List.foldl_cons]
     refine (ih (insR lt x acc)).trans ?_
     refine (List.Perm.append_left xs (insR_perm lt x acc)).trans ?_
-    simpa using List.perm_middle
+    simp
 
 theorem insertionSort_perm' (lt : α → α → Bool) (l : List α) : (insertionSort lt l).Perm l := by
   unfold insertionSort isortR
@@ -262,7 +262,9 @@ theorem dirPosFrom_mem (d : String) : ∀ (l : List String) (i acc : Nat), d ∈
   | x :: xs, i, acc, h => by
     by_cases hxs : d ∈ xs
     · obtain ⟨k, hk, he⟩ := dirPosFrom_mem d xs (i + 1) (if x == d then i else acc) hxs
-      exact ⟨k + 1, by simpa using hk, by simp [dirPosFrom, he]; omega⟩
+      refine ⟨k + 1, by simpa using hk, ?_⟩
+      simp only [dirPosFrom]
+      rw [he]; omega
     · have hx : x = d := by
         rcases List.mem_cons.1 h with e | e
         · exact e.symm
